@@ -12,7 +12,10 @@ Monitors on the implementation alone (c34.mon carries `ran=1` when the instructi
       M2 the same against the language specifications committed in the repo (langspec_v<N>.json, N = 1..13), which are
          independent of the Go tables: an instruction that got past the version/mode/field gates of a version-N program must
          exist in langspec_vN with that mode, and its field must be listed there. This is what catches a row registered
-         with a too-low version or a widened mode mask (changes that alter table and behaviour consistently)."""
+         with a too-low version or a widened mode mask (changes that alter table and behaviour consistently);
+      M3 (branch layouts) when Check* accepts a program, every pc the real eval visits (tracer) is an instruction start that
+         the real checkStep recorded, or the end of the program. The check verdict itself (ok / misaligned / outside / ...)
+         is compared with Model.OpCheck.staticCheck, whose widths come from OpDetails.Size, not from Immediates."""
 import json, os
 import common
 import vf
@@ -150,6 +153,26 @@ def monitor_langspec(t, c, ev):
     return None
 
 
+def monitor_boundaries(c, chk, m):
+    """M3 (kind br): check accepted  =>  every pc eval reached is an instruction start recorded by check, or len"""
+    if c["kind"] != "br" or chk != "ok":
+        return None, 0
+    parts = m.split("|")
+    d = kv(parts[-1]) if parts else {}
+    try:
+        n = int(d["len"])
+        starts = {int(x) for x in d.get("starts", "").split(",") if x != ""}
+        reached = [int(x) for x in d.get("reached", "").split(",") if x != ""]
+    except (KeyError, ValueError):
+        return "unparsable boundary record: " + m[-120:], 0
+    jumps = sum(1 for a, b in zip(reached, reached[1:]) if b < a or b > a + 1)
+    for pc in reached:
+        if pc not in starts and pc != n:
+            return ("check accepted the program but eval reached pc %d, which check did not record as an instruction start "
+                    "(starts %s)" % (pc, sorted(starts))), jumps
+    return None, jumps
+
+
 def run(ctx, replay_ops=None):
     ctx.overlay()
     ctx.assumptions += [
@@ -157,7 +180,7 @@ def run(ctx, replay_ops=None):
         "an OpSpecs row has a non-nil evalFunc and nil SubOps (checked by the extractor on every run)",
         "the 'reaches ledger state' classification of ops and fields is an over-approximating by-name AST call-graph scan of the package (markers: .Ledger, .subtxns, assignments to .EvalDelta, availableBox)",
         "verdict classes are recognised from the error text of the real evaluator (illegal opcode / prefix opcode; '<op> not allowed in current mode'; 'invalid <...> field|encoding|type|curve|standard|group|config', 'unsupported array field'; '<group>[<field>] not allowed in current mode')",
-        "branch-target alignment between check and eval (last sentence of the property) is NOT covered by this check (statement kept as Props.C34.CheckEvalAgreeStatement)",
+        "branch-target alignment: the CHECK side is proved for the model (check_targets_aligned) and tied by exhaustive branch layouts; that eval only moves to pc+width or to such a target is a monitor on the real eval, not a theorem",
     ]
     # ---- tie F
     rc, out = ctx.go_test(PKG, "TestVerifC34Facts")
@@ -177,7 +200,12 @@ def run(ctx, replay_ops=None):
                        "sub-opcode bytes for a prefix opcode — x versions 0..LogicVersion x {sig, app}; (op/field/nofield) every (opcode, "
                        "sub-opcode) named by OpSpecs with a type-correct stack built from intcblock/bytecblock constants and well-formed "
                        "immediates, for field-taking ops once per slot of the field group (hidden slots included) and for three "
-                       "out-of-range field values, x versions x modes. Trivial = raw (uncrafted) lines; distinct = distinct op lines")
+                       "out-of-range field values, x versions x modes; (br) for every version x mode: every branching opcode available "
+                       "(bnz/bz/b/callsub in their 2-byte or varint form, switch, match) x every multi-byte instruction shape available "
+                       "(incl. prefix+sub-opcode instructions and fat intcblock/bytecblock/pushbytes/pushint/pushints/pushbytess) as victim, "
+                       "a TAKEN forward branch to every byte offset of the victim (aligned and misaligned), to len, len+1, itself and 0, and a "
+                       "taken backward branch to every byte offset of the victim; plus VERIF_SEED-driven random layouts of 2-5 instructions "
+                       "with 1-2 branches to random positions in 0..len+1. Trivial = raw (uncrafted) lines; distinct = distinct op lines")
     res = common.correspondence(ctx, pkg=PKG, test="TestVerifC34", name="c34", drivers=[("c34", [], "model")],
                                 trivial=lambda op: op.startswith("raw "), kind_of=lambda op: " ".join(op.split()[:2]),
                                 model_is_spec=True, timeout=3000,
@@ -198,16 +226,25 @@ def run(ctx, replay_ops=None):
     t = Tables(twin, vf.REPO)
     ctx.cov["langspec_versions"] = sorted(t.spec)
     hits = {"declared": 0, "langspec": 0}
-    nran = 0
+    nran = nbr_ok = 0
     for op, res_line, m in zip(ops, impl, mon):
         c = parse(op)
         d = kv(res_line)
         k = "verdict " + d.get("chk", "?") + "/" + d.get("ev", "?")
         dist[k] = dist.get(k, 0) + 1
-        if c is None or c["pc"] >= len(c["prog"]):
+        if c is None or (c["kind"] != "br" and c["pc"] >= len(c["prog"])):
             continue
         ran = m.startswith("ran=1")
         nran += ran
+        if c["kind"] == "br":
+            hit, _ = monitor_boundaries(c, d.get("chk"), m)
+            nbr_ok += d.get("chk") == "ok"
+            if hit:
+                if hits.get("boundaries", 0) < 3:
+                    ctx.violation("monitor (boundaries): " + hit,
+                                  {"kind": "monitor", "monitor": "boundaries", "ops": [op], "impl_out": res_line, "detail": m, "harness": h},
+                                  found_input=True)
+                hits["boundaries"] = hits.get("boundaries", 0) + 1
         if res_line.startswith("PANIC") or "PANIC" in res_line or "setupfail" in res_line:
             if hits.get("panic", 0) < 3:
                 ctx.violation("monitor: evaluator panicked or the harness set-up failed: " + res_line[:80],
@@ -222,6 +259,7 @@ def run(ctx, replay_ops=None):
                                   found_input=True)
                 hits[name] += 1
     dist["instructions that ran to completion"] = nran
+    dist["branch layouts accepted by check (boundary monitor evaluated)"] = nbr_ok
     for k, n in hits.items():
         if n > 3:
             ctx.notes.append("%d further %s monitor hits suppressed" % (n - 3, k))
